@@ -78,3 +78,36 @@ Print Assumptions C04_new_like_is_new.
 Theorem C04_reset_is_new_examples : reset_examples_ok = true.
 Proof. exact reset_examples. Qed.
 Print Assumptions C04_reset_is_new_examples.
+
+(* ---- the input size guard at the entry of json_tokener_parse_ex (TokSize.v) ----
+   len < -1, or len = -1 with strlen >= INT32_MAX, is refused with the size error before a byte is
+   read; every accepted call reports an end position within 0..INT32_MAX, so the C int that
+   counts characters cannot overflow (fix 5caf9e2: the comparison was > and a NUL-terminated input
+   of exactly INT32_MAX bytes ending inside a string or comment stepped the counter to 2^31). *)
+From JC Require Import TokSize.
+
+Theorem C04_size_guard_refuses : forall sb t bytes len,
+  size_guard true bytes len = true ->
+  parse_api sb t bytes len = refuse_size t /\
+  (forall t', refuse_size t = PR t' None -> err t' = TE_size /\ char_offset t' = 0 /\ stack t' = stack t /\ TokTotal.cfg0 t' = TokTotal.cfg0 t).
+Proof. exact guard_refuses. Qed.
+Print Assumptions C04_size_guard_refuses.
+
+Theorem C04_size_guard_passes : forall sb t bytes len,
+  size_guard true bytes len = false ->
+  parse_api sb t bytes len = if len =? -1 then parse_ex_cstr sb t bytes else parse_ex sb t (zfirstn len bytes).
+Proof. exact guard_passes. Qed.
+Print Assumptions C04_size_guard_passes.
+
+Theorem C04_end_position_in_int : forall sb t bytes len t' r,
+  len <= INT32_MAX -> parse_api sb t bytes len = PR t' r -> 0 <= char_offset t' <= INT32_MAX.
+Proof. exact api_offset_in_int. Qed.
+Print Assumptions C04_end_position_in_int.
+
+Theorem C04_old_guard_accepts_int32max : forall bytes,
+  c_strlen bytes = INT32_MAX -> size_guard false bytes (-1) = false /\ size_guard true bytes (-1) = true.
+Proof. exact old_guard_accepts_int32max. Qed.
+
+Theorem C04_over_nul_examples : over_nul_examples = true.
+Proof. exact over_nul_examples_ok. Qed.
+Print Assumptions C04_over_nul_examples.
